@@ -659,8 +659,12 @@ where
                     while this.write_buf.len() < *this.h1_write_buffer_size {
                         match body.as_mut().poll_next(cx) {
                             Poll::Ready(Some(Ok(item))) => {
-                                this.codec
-                                    .encode(Message::Chunk(Some(item)), this.write_buf)?;
+                                // an empty chunk carries no data; encoding it would be taken
+                                // for the end of a chunked body
+                                if !item.is_empty() {
+                                    this.codec
+                                        .encode(Message::Chunk(Some(item)), this.write_buf)?;
+                                }
                             }
 
                             Poll::Ready(None) => {
@@ -717,8 +721,12 @@ where
                     while this.write_buf.len() < *this.h1_write_buffer_size {
                         match body.as_mut().poll_next(cx) {
                             Poll::Ready(Some(Ok(item))) => {
-                                this.codec
-                                    .encode(Message::Chunk(Some(item)), this.write_buf)?;
+                                // an empty chunk carries no data; encoding it would be taken
+                                // for the end of a chunked body
+                                if !item.is_empty() {
+                                    this.codec
+                                        .encode(Message::Chunk(Some(item)), this.write_buf)?;
+                                }
                             }
 
                             Poll::Ready(None) => {
